@@ -300,6 +300,10 @@ class Connector:
 
     def _schedule_connection(self, delay, h, is_relay):
         ep = endpoint_from_hint_obj(h, self._tor, self._reactor)
+        if ep is None:
+            # not a hint we can dial (e.g. a Tor hint without Tor): skip it,
+            # like transit.py does, instead of scheduling _connect(None)
+            return
         desc = describe_hint_obj(h, is_relay, self._tor)
         d = deferLater(self._reactor, delay,
                        self._connect, ep, desc, is_relay)
